@@ -321,7 +321,7 @@ func runC20(c *mon.Ctx) {
 	})
 	c.MarkExhaustive("all ordered pairs of the legal (numerator 1..24, denominator 1..32) signatures as consecutive bars")
 
-	c.Each("random-songs", c.N(3000, 100_000), func(i int64, r *mon.Rand) {
+	c.Each("random-songs", c.N(3000, 3_000_000), func(i int64, r *mon.Rand) {
 		s := &c20Song{}
 		s.res = uint16(8 * r.Range(1, 4095))
 		if r.P(1, 3) {
